@@ -39,7 +39,7 @@ ASSUMPTIONS = [
     "and k*dr may fall on different sides); their count is reported",
     "force rows whose numerical-fallback stencil (h=1e-6) crosses a piecewise boundary are not compared",
 ]
-REQUIRED = {"special:root_on_grid": 8, "special:decay_tail": 8, "special:growth": 4, "single_row_table": 2, "repeated_pair_in_list": 5, "route:api_class": 15, "route:writePotentials": 15, "route:potable": 25,
+REQUIRED = {"special:int_plateau": 4, "special:root_on_grid": 8, "special:decay_tail": 8, "special:growth": 4, "single_row_table": 2, "repeated_pair_in_list": 5, "route:api_class": 15, "route:writePotentials": 15, "route:potable": 25,
             "blocks>=2": 20, "force:numeric_fallback": 10, "reversed_labels": 5, "rewrite:2_writes": 2, "defaults:nr_given": 1, "defaults:cutoff_given": 1, "defaults:none_given": 1}
 FMT = ("f", 8)
 
@@ -73,6 +73,8 @@ def _case(draw, nr_max, min_pots=1, max_pots=4, defaults=False):
 def _special(draw, kind):
     m = draw(gen.special_pair_model(kind, dlpoly=False))
     m["route"] = draw(st.sampled_from(["api_class", "writePotentials", "potable"]))
+    if kind == "int_plateau":
+        m["int_returns"] = draw(st.booleans())
     return m
 
 
@@ -97,11 +99,11 @@ def strata(tier):
     if tier == "quick":
         return [("one", _case(60, 1, 1), 4), ("several", _case(60, 2, 4), 5), ("large", _case(400), 1),
                 ("root_on_grid", _special("root_on_grid"), 1), ("decay_tail", _special("decay_tail"), 1), ("growth", _special("growth"), 0.5), ("rewrite", _rewrite(), 1),
-                ("single_row", _case(2, 1, 3), 0.3)] + [
+                ("int_plateau", _special("int_plateau"), 0.6), ("single_row", _case(2, 1, 3), 0.3)] + [
             ("defaults:" + g, _case(60, 1, 2, g), 0.4) for g in ("nr", "cutoff", "none")]
     return [("defaults:" + g, _case(60, 1, 2, g), 0.4) for g in ("nr", "cutoff", "none")] + [("rewrite", _rewrite(), 1), ("one", _case(60, 1, 1), 3), ("several", _case(60, 2, 4), 3), ("medium", _case(400), 3),
             ("large", _case(5000, 1, 2), 1), ("root_on_grid", _special("root_on_grid"), 1),
-            ("decay_tail", _special("decay_tail"), 1), ("growth", _special("growth"), 0.5), ("single_row", _case(2, 1, 3), 0.3)]
+            ("decay_tail", _special("decay_tail"), 1), ("growth", _special("growth"), 0.5), ("int_plateau", _special("int_plateau"), 0.6), ("single_row", _case(2, 1, 3), 0.3)]
 
 
 def budget(tier):
@@ -283,6 +285,8 @@ def check_case(case):
         cls.append("container:" + case.get("container", "list"))
     if case.get("special"):
         cls.append("special:" + case["special"])
+    if case.get("int_returns") and not case["route"].startswith(("potable", "main", "cli")):
+        cls.append("callables_return_ints")
     if len(case["pair"]) >= 2:
         cls.append("blocks>=2")
     if case["nr"] > 60:
